@@ -247,6 +247,16 @@ pub fn gen_forkjoin(rng: &mut Rng, light: bool) -> VmCase {
         tag.push_str(&format!("parent-mem-{},", fill + mem.len() as Word));
         ops.extend([PUSH(fill), ALOC(), POP()]);
     }
+    let big_breadth = breadth > 250 && breadth < 6000;
+    let mut below_breadth = false;
+    if big_breadth && !tag.contains("parent-mem-") && rng.chance(1, 2) {
+        // the parent's memory ends a little below the breadth: the first few hundred children
+        // can read "their" word of it, the last ones cannot — whatever their siblings wrote
+        let want = (breadth - 1 - rng.range(0, 40)).max(mem.len() as Word + 1);
+        tag.push_str(&format!("parent-mem-{want},"));
+        ops.extend([PUSH(want - mem.len() as Word), ALOC(), POP()]);
+        below_breadth = true;
+    }
     let two_computes = !in_loop && mem.len() >= 2 && rng.chance(1, 4);
     if in_loop {
         tag.push_str("in-repeat,");
@@ -267,7 +277,10 @@ pub fn gen_forkjoin(rng: &mut Rng, light: bool) -> VmCase {
     ops.push(COM());
     let com_ix = ops.len() - 1;
     let stack_full = tag.contains("parent-stack-409");
-    let body = if stack_full && rng.chance(3, 4) {
+    let body = if below_breadth {
+        tag.push_str("store-index,parent-load,");
+        vec![PUSH(1), ALOC(), POP(), DUP(), PUSH(0), STO(), DUP(), LODP(), POP()]
+    } else if stack_full && rng.chance(3, 4) {
         // only bodies that never need a word above the index can succeed here
         tag.push_str("stack-neutral,");
         match rng.below(3) {
@@ -590,6 +603,18 @@ pub fn gen_read(rng: &mut Rng) -> VmCase {
         4 => c.faults.push(Fault::Transient { nth: 0, id: 7201 }),
         _ => {}
     }
+    if plain && !twin && num == 1 && rng.chance(1, 12) {
+        // a full memory, filled exactly (or by one word too many) by the answer: one pair and
+        // one value of 10238 (10239) words at address 0
+        c.init_memory = (0..10240).map(|i| 0x4D00 + i as Word).collect();
+        let n = c.init_stack.len();
+        c.init_stack[n - 1] = 0;
+        c.faults = vec![Fault::Hostile {
+            contract: target,
+            key: base_key.clone(),
+            shape: Shape::Huge(10238 + rng.usize(2)),
+        }];
+    }
     c.container = random_container(rng);
     c.shape = format!(
         "read ext={ext} post={post} key_len={key_len} kl={kl} num={num} addr={addr} mem={mem_len} faults={}",
@@ -631,16 +656,27 @@ pub fn gen_total(rng: &mut Rng) -> (VmCase, usize) {
     // without ever being closed, words pushed, memory allocated, with a backward jump around it.
     // Whatever the bound, the VM must stop with a typed error *at* it.
     let bomb = rng.chance(1, 12);
+    let mut nested = false;
     if bomb {
         ops.clear();
-        let body: Vec<Op> = match rng.below(5) {
+        let body: Vec<Op> = match rng.below(6) {
+            5 => vec![],
             0 => vec![PUSH(1 + rng.range(0, 2)), PUSH(rng.range(0, 1)), REP()],
             1 => vec![PUSH(7), PUSH(7), PUSH(7)],
             2 => vec![PUSH(*rng.pick(&[1, 7, 1000, 4096])), ALOC(), POP()],
             3 => vec![PUSH(3), PUSH(1), REP(), PUSH(9)],
             _ => vec![DUP(), DUP(), PUSH(2), ALOC()],
         };
-        if rng.chance(1, 2) {
+        if body.is_empty() {
+            // a Compute inside a compute program: nesting depth 2 must be refused, whatever
+            // the parent's memory holds (nothing, in half of the cases)
+            nested = true;
+            ops.extend([PUSH(1 + rng.range(0, 2)), COM()]);
+            for _ in 0..rng.usize(3) {
+                ops.extend([PUSH(7), POP()]);
+            }
+            ops.extend([PUSH(1 + rng.range(0, 2)), COM(), PUSH(1), ALOC(), POP(), COME(), COME()]);
+        } else if rng.chance(1, 2) {
             // an enclosing counting loop instead of a jump
             ops.extend([PUSH(*rng.pick(&[4095, 4096, 4097, 5000, 12000])), PUSH(1), REP()]);
             ops.extend(body.iter().copied());
@@ -669,6 +705,15 @@ pub fn gen_total(rng: &mut Rng) -> (VmCase, usize) {
         _ => rng.usize(20),
     };
     c.init_memory = (0..ml).map(|i| i as Word).collect();
+    if nested {
+        // room on the stack for the breadths and the child index; memory empty or not
+        c.init_stack.truncate(8);
+        if rng.chance(1, 2) {
+            c.init_memory.clear();
+        } else {
+            c.init_memory.truncate(100);
+        }
+    }
     // solution data incl. large slots
     c.solutions = vec![
         vec![vec![1, 2, 3], vec![], (0..rng.usize(40)).map(|i| i as Word).collect()],
@@ -708,7 +753,7 @@ pub fn gen_total(rng: &mut Rng) -> (VmCase, usize) {
         },
         _ => random_container(rng),
     };
-    c.shape = format!("total n={n} stack={sl} mem={ml}{}", if bomb { " bomb" } else { "" });
+    c.shape = format!("total n={n} stack={sl} mem={ml}{}", if nested { " nested-compute" } else if bomb { " bomb" } else { "" });
     (c, 1 + rng.usize(3))
 }
 
@@ -1573,6 +1618,16 @@ fn eval_total(ev: &mut VmEval, case: &VmCase, spec: &SchedSpec, calls: usize) {
                     if state.stack.len() > crate::hooks::STACK_LIMIT || state.memory.len() > crate::hooks::MEMORY_LIMIT {
                         ev.finding = Some(finding("vm-bound", format!("final state out of bounds: stack {} memory {}", state.stack.len(), state.memory.len())));
                         return;
+                    }
+                    if case.shape.contains("nested-compute") {
+                        ev.note("nested_compute_programs");
+                        if matches!(results.first(), Some(VmResult::Ok { .. })) {
+                            ev.finding = Some(finding(
+                                "vm-bound",
+                                format!("a Compute inside a compute program was carried out instead of refused (nesting depth 2) [{}]", case.shape),
+                            ));
+                            return;
+                        }
                     }
                     if results.iter().any(|r| matches!(r, VmResult::Ok { .. })) {
                         ev.note("some_call_ok");
